@@ -303,6 +303,9 @@ func routeFunc(id int, entity ...bool) restful.RouteFunction {
 // SelFilter is a recording filter (logs the selected route it sees, then passes control on).
 func SelFilter(where string) restful.FilterFunction { return selFilter(where) }
 
+// RouteFunc is the recording route function of generated tables, for scenarios that register routes by hand.
+func RouteFunc(id int) restful.RouteFunction { return routeFunc(id) }
+
 func selFilter(where string) restful.FilterFunction {
 	return func(req *restful.Request, resp *restful.Response, chain *restful.FilterChain) {
 		if o := ObsOf(req.Request); o != nil {
